@@ -41,11 +41,6 @@ repeated at the definition concerned):
 * A4 `doPendingFunctors()` at the end of an iteration: the functor queue is the loop engine's (`Model/Loop.lean`); in
   this engine the operations between two polls are the inputs `In.op`, which `Poller.run` applies after `Poller.iter`
   has returned, i.e. after `handling := false` - the position the call has in the skeleton.
-* D1 (order, benign) `Poller.pollerPoll` tests the environment's well-formedness and the first assertion of
-  `EPollPoller::fillActiveChannels` (`ready.length > s.evsize ∨ nret ≠ ready.length`) before `epHasEvents`; the source
-  asserts inside `fillActiveChannels`, i.e. under `epHasEvents`.  With a well-formed report (`nret = ready.length`) the
-  test can only fire when `nret > evsize ≥ 16`, hence under the generated `epHasEvents` (`numEvents > 0`) as well; the
-  declared skeleton has the source's nesting.
 -/
 namespace MuduoVerif.PollerSkel
 open MuduoVerif.Gen.Poller
@@ -175,8 +170,7 @@ namespace Decl
 
 /-- `Poller.pollerPoll`, `.epoll`: `emit s (.wait s.evsize kPollTimeMs)` (`epoll_wait` on an array of `events_.size()`
 entries with the time-out handed in); `if epHasEvents nret then` `epollFill s ready []`, then `if epArrayFull nret
-s1.evsize then { .. evsize := epGrowTo s1.evsize }` `else (s, [])`.  (D1: the model's `badEnv` test stands in front of
-`epHasEvents`; it is the first assertion of `fillActiveChannels`, see the header.) -/
+s1.evsize then { .. evsize := epGrowTo s1.evsize }` `else (s, [])` -/
 def epollPoll : List Skel :=
   [ .act (.sys .epollWait "epollfd_, &*events_.begin(), events_.size(), timeoutMs"),
     .ite "epHasEvents"
@@ -185,8 +179,9 @@ def epollPoll : List Skel :=
       [],
     .act .ret ]
 
-/-- `Poller.pollerPoll`'s test `ready.length > s.evsize` (`abort .. "numEvents <= events_.size()"`), then
-`Poller.epollFill`: for each reported `(c, rev)` (the kernel hands back the channel pointer `data.ptr`):
+/-- `Poller.pollerPoll`, under `epHasEvents`: the test `ready.length > s.evsize ∨ nret ≠ ready.length` (`abort ..
+"numEvents <= events_.size()"`; its second disjunct is the environment's well-formedness: the kernel wrote as many
+entries as it says), then `Poller.epollFill`: for each reported `(c, rev)` (the kernel hands back the channel pointer `data.ptr`):
 `if s.cmap (fdOf c) ≠ some c then abort ..` (A2: both assertions), `setChan s c { .. revents := rev }`, `c :: acc` -/
 def epollFillActiveChannels : List Skel :=
   [ .act (.assertion "implicit_cast<size_t>(numEvents) <= events_.size()"),
